@@ -108,7 +108,7 @@ func TestC20_Random(t *testing.T) {
 	rec := evid.New("C20", "c20_random", "rapid: byte sub-slices b[i:j:k] (spare capacity, empty, nil) of parents of 0..70000 pattern bytes and substrings s[i:j] of larger strings; BinaryToString must keep length/content and share memory (data pointer == &b[i]); StringToBinary must keep length/content, share memory, have cap == len, and appending to it must leave the parent string unchanged; non-trivial = sub-slice with spare capacity or a proper substring")
 	defer rec.Flush()
 	rec.Assume("only the go1.21+ implementation file is compiled by the installed toolchains; the legacy file cannot be exercised here")
-	runRapid(t, rec, "c20_conv", evid.Pick(150000, 400000), genConvCase, checkConv)
+	runRapid(t, rec, "c20_conv", evid.Pick(150000, 2000000), genConvCase, checkConv)
 }
 
 func TestC20_Small(t *testing.T) {
